@@ -20,8 +20,10 @@ from concurrent.futures.process import BrokenProcessPool
 import multiprocessing
 
 VERIF_DIR = os.path.dirname(os.path.dirname(os.path.abspath(__file__)))
-REPLAY_DIR = os.path.join(VERIF_DIR, "replays")
-EVIDENCE_DIR = os.path.join(VERIF_DIR, "evidence")
+# VERIF_OUT redirects what a run writes (mutant/seeded self-tests must not touch the committed evidence)
+_OUT = os.environ.get("VERIF_OUT", VERIF_DIR)
+REPLAY_DIR = os.path.join(_OUT, "replays")
+EVIDENCE_DIR = os.path.join(_OUT, "evidence")
 KNOWN_FINDINGS = os.path.join(VERIF_DIR, "known_findings.json")
 CHECK = os.path.join(VERIF_DIR, "check")
 REPLAY_FORMAT = 1
